@@ -175,10 +175,16 @@ func CmdAdd(cmdArgs *skel.CmdArgs, networkInfos []*NetworkInfo) (types.Result, e
 	for idx, networkInfo := range networkInfos {
 		//append additional args from network info
 		cmdArgs.Args = strings.TrimRight(fmt.Sprintf("%s;%s", cmdArgs.Args, BuildCNIArgs(networkInfo.Args)), ";")
+		conf := networkInfo.Conf
 		if result != nil {
-			networkInfo.Conf["prevResult"] = result
+			// networkInfo.Conf is the network configuration shared by all requests, hand prevResult over in a copy
+			conf = make(map[string]interface{}, len(networkInfo.Conf)+1)
+			for k, v := range networkInfo.Conf {
+				conf[k] = v
+			}
+			conf["prevResult"] = result
 		}
-		result, err = DelegateAdd(networkInfo.Conf, cmdArgs, networkInfo.IfName)
+		result, err = DelegateAdd(conf, cmdArgs, networkInfo.IfName)
 		if err != nil {
 			//fail to add cni, then delete all established CNIs recursively
 			glog.Errorf("fail to add network %s: %v, begin to rollback and delete it", networkInfo.Args, err)
